@@ -282,6 +282,26 @@ def r5(ctx):
     ctx.check(not ins, "C16.R5", rr, "no reordering of the route table", witness=[norm(c) for c in ins])
     pr = [c for c in calls_named(rr, "patternToRegex")]
     ctx.check(len(pr) == 1 and norm(pr[0].args[0]) == "route.pattern", "C16.R5", rr, "each route is compiled from its own pattern")
+    # every route handed in enters the table: the store is controlled by the loop alone, or by tests whose other side raises (the
+    # unsupported-method refusal).  A route that is silently skipped (de-duplication by some key, a filter) never gets to match:
+    # "the first *registered* route whose pattern matches" then answers 404 for paths only that route accepts.
+    if len(aps) == 1:
+        rcfg = cfg_of(rr)
+        an = rcfg.node_of(aps[0])
+        lp = [p_ for p_ in _parents_of(aps[0], rr.node) if isinstance(p_, (ast.For, ast.While))]
+        if an is not None and lp and rcfg.node_of(lp[0]) is not None:
+            loop_conds = {(id(t), p_) for (t, p_) in rcfg.conditions_of(rcfg.node_of(lp[0]).id)}
+            silent = []
+            for (t, pol) in rcfg.conditions_of(an.id, loop_exits=False):
+                if (id(t), pol) in loop_conds:
+                    continue
+                ifs = [n for n in walk_own(rr.node) if isinstance(n, ast.If) and any(x is t for x in ast.walk(n.test))]
+                other = (ifs[0].orelse if pol else ifs[0].body) if ifs else []
+                if not (other and isinstance(other[-1], ast.Raise)):
+                    silent.append((norm(t), pol))
+            jumps = [n for n in ast.walk(lp[0]) if isinstance(n, (ast.Continue, ast.Break, ast.Return))]
+            ctx.check(not silent and not jumps, "C16.R5", rr, "every route handed to registerRoutes enters the table (or the call raises)",
+                      "a route that is skipped silently never gets to match", witness=silent + [norm(j) for j in jumps])
     gr = ctx.fn("http_server:Router.getRoute")
     cfg = cfg_of(gr)
     from .common import sym_text
